@@ -178,6 +178,7 @@ func init() {
 				if t == Thorough {
 					cf = cfgs([]int{1, 2, 8}, []int{0, 62, 126, 190, 250}, one, uPQ)
 				}
+				cf = autoPad(cf, 1, 2)
 			} else {
 				cf = cfgs([]int{1}, []int{0, 63}, one, uPQ)
 			}
@@ -193,10 +194,16 @@ func init() {
 		}
 		// S3 relation moves
 		scs = append(scs, &engine.Scenario{
-			Name: "C01-S3-relations/mapN", Cfgs: cfgs([]int{1}, []int{0, 63}, one, relUniverse), Filters: relFilters(), Slots: 1,
+			Name: "C01-S3-relations/mapN", Cfgs: autoPad(cfgs([]int{1}, []int{0, 63}, one, relUniverse), 1), Filters: relFilters(), Slots: 1,
 			Oracle:   drv.Oracle{World: true, Typed: true, Filters: true, Lock: true},
 			Preludes: relPreludes(model.PathMapN)[2:4],
 			Alphabet: relAlphabet(relOpts{path: model.PathMapN, maxAlive: 5, two: true, nTargets: 2}), Depth: d,
+		})
+		// S6 archetype graph: add / remove / exchange of every component subset over {P,Q,T9}
+		scs = append(scs, &engine.Scenario{
+			Name: "C01-S6-graph", Cfgs: autoPad(cfgs([]int{1}, []int{0}, one, uPQ), 2, 1), Filters: plainFilters(ct.P, ct.Q), Slots: 1,
+			Oracle: func() drv.Oracle { o := worldOracle; o.Family = plainFamily(ct.P, ct.Q); return o }(),
+			Alphabet: graphAlphabet([]ct.Comp{ct.P, ct.Q, ct.T9}, 3), Depth: d + 1,
 		})
 		// S4 batch moves, S5 reset/shrink interleaved
 		ob := plainOpts{a: ct.P, b: ct.Q, c: ct.NumComps, path: model.PathMapN, maxAlive: 5, batch: true, shrink: true, reset: true}
@@ -207,4 +214,62 @@ func init() {
 		return &Check{ID: "C01", Scenarios: scs,
 			Rule: "all histories over five alphabets (plain moves through MapN / Map / ExchangeN / ID-based API; pointer-bearing, zero-size and large components; relation moves; batch moves; Reset and Shrink interleaved) with entity selectors oldest/middle/newest, from 3 preludes, capacities {1,2,8}, component ID offsets {0,62,63,126,190,250}; after every history the whole world (every entity, component set, value via Unsafe.Get and Map.Get, query Get pointers) is compared with the model; distinct = distinct model states; non-trivial = >=1 alive entity"}
 	}
+}
+
+// graphAlphabet: every non-empty subset of the universe is added / removed / exchanged in one
+// operation (multi-component transitions exercise the archetype graph's cached edges).
+func graphAlphabet(u []ct.Comp, maxAlive int) func(m *model.Model) []model.Op {
+	subs := subsets(u)
+	return func(m *model.Model) []model.Op {
+		var ops []model.Op
+		if limitAlive(m, maxAlive) {
+			for _, s := range subs {
+				if s != 0 && s.Len() != 2 {
+					ops = append(ops, model.Op{K: model.OpNew, Path: model.PathUnsafe, Cs: s})
+				}
+			}
+		}
+		k := 0
+		for _, e := range pick2(m.Alive()) {
+			cs := m.Ents[e].Comps
+			for _, s := range subs {
+				if s == 0 {
+					continue
+				}
+				k++
+				path := model.PathUnsafe
+				if k%2 == 0 {
+					path = model.PathMapN
+				}
+				if cs&s == 0 {
+					ops = append(ops, model.Op{K: model.OpAdd, Path: path, E: e, Cs: s})
+				}
+				if cs&s == s {
+					ops = append(ops, model.Op{K: model.OpRemove, Path: path, E: e, Rm: s})
+				}
+			}
+			// exchanges: add everything missing / remove one present, and vice versa
+			all := ct.Of(u...)
+			miss := all &^ cs
+			for _, c := range cs.List() {
+				if miss != 0 {
+					ops = append(ops, model.Op{K: model.OpExchange, Path: path2(k), E: e, Cs: miss, Rm: ct.Of(c)})
+				}
+			}
+			for _, c := range miss.List() {
+				if cs != 0 {
+					ops = append(ops, model.Op{K: model.OpExchange, Path: path2(k + 1), E: e, Cs: ct.Of(c), Rm: cs})
+				}
+			}
+			ops = append(ops, model.Op{K: model.OpRemoveEntity, E: e})
+		}
+		return validOnly(m, ops)
+	}
+}
+
+func path2(k int) model.Path {
+	if k%2 == 0 {
+		return model.PathUnsafe
+	}
+	return model.PathMapN
 }
